@@ -104,6 +104,8 @@ def kani_cmd(job, extra=()):
            "--target-dir", target_dir(job.prop),
            "--harness", job.h["name"], "--exact"]
     cmd += list(extra)
+    if job.h.get("cbmc_args"):
+        cmd += ["-Z", "unstable-options", "--cbmc-args"] + list(job.h["cbmc_args"])
     return cmd
 
 
